@@ -57,6 +57,7 @@ impl Report {
   /// Counts one explored case; `nontrivial` by the property's stated rule; `key` identifies
   /// the case (distinct cases are counted through a hash set).
   pub fn case(&mut self, key: &str, nontrivial: bool) {
+    crate::util::beat();
     self.evaluations += 1;
     if nontrivial {
       let mut h = std::collections::hash_map::DefaultHasher::new();
